@@ -85,7 +85,11 @@ PROPS = {
     "C19": ("proof", "Type-level frame condition: Regex, Match, Error are Send + Sync + DeepFrozen (no UnsafeCell "
             "reachable, dependencies included) - a &Regex cannot be written through, so no interleaving or earlier "
             "query can change a result; plus unsafe-site and global-state inventory."),
-    "C20": ("other", "Single-step inductive tiling contract of RegexSearcher::next/next_back with oracle-stubbed matcher."),
+    "C20": ("other", "Forward searcher only: inductive single step of RegexSearcher::next from every cursor state (a step starts "
+            "at the cursor, ends on a char boundary, the cursor moves to its end; Match exactly for the regex's next match; "
+            "Done only at the end and sticky), with the matcher replaced by an arbitrary deterministic oracle, on a 4-byte "
+            "haystack with a 2-byte character. The zero-width-match case is a KNOWN FINDING (F7). NOT covered: next_back "
+            "(it rescans from offset 0 on every call: the harness does not close), Pattern-level consumers (find, split)."),
 }
 
 ASSUMPTIONS = {
